@@ -12,6 +12,7 @@ import (
 	"github.com/orda-io/orda/client/pkg/context"
 	"github.com/orda-io/orda/client/pkg/model"
 	"github.com/orda-io/orda/client/pkg/vf"
+	"github.com/orda-io/orda/server/schema"
 	"github.com/orda-io/orda/server/utils"
 )
 
@@ -39,10 +40,15 @@ func VF_C12_Serialized() {
 	subscribe(d, vfCUIDx, 1, 1)
 	// the second client either pushes as a subscriber, or is just subscribing (its
 	// request carries the subscribe bit and a provisional DUID of its own)
-	ySubscribes := vf.Choice("y-request", 2) == 1
-	vf.Tag("y", ySubscribes)
-	if !ySubscribes {
+	// ... or is a read-only subscriber that polls
+	yKind := vf.Choice("y-request", 3)
+	ySubscribes, yReadOnly := yKind == 1, yKind == 2
+	vf.Tag("y", yKind)
+	if yKind == 0 {
 		subscribe(d, vfCUIDy, 1, 0)
+	}
+	if yReadOnly {
+		d.ROClients[vfCUIDy] = &schema.SubscribedClientDoc{CP: &model.CheckPoint{Sseq: 1, Cseq: 0}, Type: int8(model.ClientType_PERSISTENT)}
 	}
 	// an earlier, pull-only request of x; its context is cancelled on return
 	if vf.Choice("earlier-request", 2) == 1 {
@@ -73,6 +79,11 @@ func VF_C12_Serialized() {
 			opt.SetSubscribeBit()
 			r2, e2 = w.pushPullCtx(ctx, vfCol, vfCUIDy, &model.PushPullPack{Key: vfKey, DUID: vfDUIDu, Option: uint32(opt), Type: model.TypeOfDatatype_COUNTER,
 				CheckPoint: &model.CheckPoint{Sseq: 0, Cseq: 0}})
+		} else if yReadOnly {
+			opt := model.PushPullBitNormal
+			opt.SetReadOnlyBit()
+			r2, e2 = w.pushPullCtx(ctx, vfCol, vfCUIDy, &model.PushPullPack{Key: vfKey, DUID: vfDUID, Option: uint32(opt), Type: model.TypeOfDatatype_COUNTER,
+				CheckPoint: &model.CheckPoint{Sseq: 1, Cseq: 0}})
 		} else {
 			r2, e2 = w.pushPullCtx(ctx, vfCol, vfCUIDy, &model.PushPullPack{Key: vfKey, DUID: vfDUID, Type: model.TypeOfDatatype_COUNTER,
 				CheckPoint: &model.CheckPoint{Sseq: 1, Cseq: 1}, Operations: []*model.Operation{vfIncOp(vfCUIDy, 1, 2)}})
@@ -96,7 +107,7 @@ func VF_C12_Serialized() {
 	pushed := served
 	if !o2.HasErrorBit() {
 		served++
-		if !ySubscribes {
+		if yKind == 0 {
 			pushed++
 			wantY = 1
 		}
@@ -111,6 +122,9 @@ func VF_C12_Serialized() {
 		if !o2.HasErrorBit() {
 			vf.Assert(r2.DUID == vfDUID, "C13 the subscriber is given the datatype's DUID")
 		}
+	} else if yReadOnly {
+		ro := dd.ROClients[vfCUIDy]
+		vf.Assert(ro != nil && ro.CP.Sseq <= dd.Sseq.End, "C06 a read-only subscriber's checkpoint never exceeds what is stored")
 	} else {
 		vf.Assert(dd.RWClients[vfCUIDy] != nil && dd.RWClients[vfCUIDy].CP.Cseq == wantY, "C12 exactly the served requests' checkpoints are recorded")
 	}
